@@ -1,0 +1,56 @@
+//go:build verif
+
+/*
+ * Licensed to the Apache Software Foundation (ASF) under one or more
+ * contributor license agreements.  See the NOTICE file distributed with
+ * this work for additional information regarding copyright ownership.
+ * The ASF licenses this file to You under the Apache License, Version 2.0
+ * (the "License"); you may not use this file except in compliance with
+ * the License.  You may obtain a copy of the License at
+ *
+ *     http://www.apache.org/licenses/LICENSE-2.0
+ *
+ * Unless required by applicable law or agreed to in writing, software
+ * distributed under the License is distributed on an "AS IS" BASIS,
+ * WITHOUT WARRANTIES OR CONDITIONS OF ANY KIND, either express or implied.
+ * See the License for the specific language governing permissions and
+ * limitations under the License.
+ */
+
+package sql
+
+import (
+	"database/sql"
+	"sync"
+
+	"github.com/prometheus/client_golang/prometheus"
+
+	"seata.apache.org/seata-go/pkg/datasource/sql/datasource"
+	"seata.apache.org/seata-go/pkg/datasource/sql/types"
+	"seata.apache.org/seata-go/pkg/protocol/branch"
+)
+
+// VerifNewATSourceManager builds an AT source manager with its own async
+// worker exactly as InitAT does, but without touching the process-wide
+// resource-manager cache or the default prometheus registry, so that several
+// independent instances can live in one process. Verification builds only.
+func VerifNewATSourceManager(asyncCfg AsyncWorkerConfig) *ATSourceManager {
+	m := &ATSourceManager{
+		resourceCache: sync.Map{},
+		basic:         datasource.NewBasicSourceManager(),
+	}
+	m.worker = NewAsyncWorker(prometheus.NewRegistry(), asyncCfg, m)
+	return m
+}
+
+// VerifCacheResource puts a MySQL AT resource over the given pool into the
+// manager's resource cache (what RegisterResource does, minus the RegisterRM
+// round trip to the coordinator). Verification builds only.
+func VerifCacheResource(m *ATSourceManager, resourceID string, db *sql.DB) {
+	m.resourceCache.Store(resourceID, &DBResource{
+		resourceID: resourceID,
+		db:         db,
+		dbType:     types.DBTypeMySQL,
+		branchType: branch.BranchTypeAT,
+	})
+}
